@@ -101,9 +101,12 @@ class Stack:
                 return np.array(fun(x), copy=True)
             if kind == "g":
                 return np.array(jac(x), copy=True)
+            # "constraint k" = the k-th callable that was handed over (modulo how many there are: how the plug-in groups
+            # its normalized constraints into callables is its own business)
+            handed = constraints[request[1] % len(constraints)]
             if kind == "c":
-                return np.array(constraints[request[1]]["fun"](x), copy=True)
-            return np.array(constraints[request[1]]["jac"](x), copy=True)
+                return np.array(handed["fun"](x), copy=True)
+            return np.array(handed["jac"](x), copy=True)
 
         def driver_min(*, fun: Any, x0: Any, jac: Any = None, constraints: Any = (), **kwargs: Any) -> None:
             self.n_rows = len(constraints)
